@@ -40,7 +40,26 @@ def fail(node, msg):
 
 
 def is_doc(s):
-    return isinstance(s, ast.Expr) and isinstance(s.value, ast.Constant) and isinstance(s.value.value, str)
+    """statements without effect on the translated value: docstrings, `pass`, and pure logging calls (logger.* / self._logger.* /
+    logging.* / warnings.warn whose arguments contain no call, walrus or yield)"""
+    if isinstance(s, ast.Pass):
+        return True
+    if isinstance(s, ast.Expr) and isinstance(s.value, ast.Constant) and isinstance(s.value.value, str):
+        return True
+    if isinstance(s, ast.Expr) and isinstance(s.value, ast.Call):
+        f, parts = s.value.func, []
+        while isinstance(f, ast.Attribute):
+            parts.append(f.attr)
+            f = f.value
+        if isinstance(f, ast.Name):
+            parts.append(f.id)
+            parts = parts[::-1]
+            is_log = (parts[:2] == ['self', '_logger'] or parts[0] in ('logger', 'logging') or parts == ['warnings', 'warn']) and len(parts) >= 2
+            if is_log and parts[-1] in ('debug', 'info', 'warning', 'error', 'critical', 'warn', 'log'):
+                inner = [n for a in list(s.value.args) + [k.value for k in s.value.keywords] for n in ast.walk(a)]
+                if not any(isinstance(n, (ast.Call, ast.NamedExpr, ast.Yield, ast.YieldFrom, ast.Await, ast.Lambda)) for n in inner):
+                    return True
+    return False
 
 
 def is_name(n, s):
